@@ -41,7 +41,8 @@ RULE = ("HDDDM (1-3 features) and CDBD (1 feature) with detect_batch in {2,3}, K
         "different distributions; one permutation per data item (reference included): shuffle, reversal, sort by first column, "
         "exchange of the two halves, identity for some items; np.random.seed(seed_of(case, step)) before every call in both runs. "
         "Non-trivial: some item is really permuted and the original run reports at least one drift and one non-drift update "
-        "(detect_batch = 2: at least two updates). Excluded: NaN / inf / -0.0 coordinates.")
+        "(detect_batch = 2: at least two updates). Excluded: NaN / inf / -0.0 coordinates."
+        " Also: detect_batch handed over as np.int64 / float; batches of 20000 and 70000 rows (the latter decided on the implementation only); a non-default cutpoint_proportion_lbound on features scaled so that it bites.")
 SHARD = 6
 
 DET_KINDS = ["HDDDM", "CDBD", "KdqTreeBatch", "NNDVI"]
